@@ -29,7 +29,7 @@ RULES_DOC.update({
     "R4": "every `v = v * 10 + d` is guarded against overflow on all paths",
     "R5": "config writer/reader agree per enumerator; hashtable get/set/delete agree on the bucket; delete keeps the trailing pointer in step",
 })
-VARIANTS = []
+VARIANTS = ["no_mem_pool"]
 ENV = "src/arch/abtd_env.c"
 
 
@@ -89,7 +89,10 @@ def rule_R2(P, rep):
                         if G.nodes[j].get("k") == "ret" and "e" in G.nodes[j]:
                             txt += " <- " + terms.expand(G, G.nodes[j]["e"])
             got[fo[1]] = txt
+    have = {f["n"] for f in P.record("ABTI_global").get("fields", [])}
     for field, rf in sorted(table.items()):
+        if field.startswith("mem_") and field not in have and P.variant == "no_mem_pool":
+            continue  # the memory-pool settings do not exist when the pool is configured out
         rep.ob("R2", "ABTI_global::%s is assigned through %s" % (field, rf), field in got and (rf + "(") in got[field],
                "assigned %s" % got.get(field), loc=F.file, site="rounding/" + field)
 
